@@ -73,6 +73,40 @@ def execute(mode, histories, name, v):
     return res
 
 
+def select_histories(hs, cap, rnd):
+    """Stratified choice: histories are grouped by their shape (operations, versions, which builds are
+    killed / fail); the members of a group differ in the mutation before which a build is killed.  Groups
+    that enumerate the kill points of a single build (<= 12 members) are taken completely - the property is
+    about *every* crash point -, one member of every larger group, then a seeded random fill."""
+    import collections
+    uniq = []
+    seen = set()
+    for h in hs:
+        k = json.dumps(h, sort_keys=True)
+        if k not in seen:
+            seen.add(k)
+            uniq.append(h)
+    if len(uniq) <= cap:
+        return uniq
+    groups = collections.OrderedDict()
+    for h in uniq:
+        key = tuple((s["op"], s.get("v"), "crash_at" in s, s.get("rustc_fail")) for s in h)
+        groups.setdefault(key, []).append(h)
+    chosen, rest = [], []
+    for key, ms in groups.items():
+        if len(ms) <= 12:
+            chosen += ms
+        else:
+            i = rnd.randrange(len(ms))
+            chosen.append(ms[i])
+            rest += ms[:i] + ms[i + 1:]
+    if len(chosen) > cap:
+        chosen = rnd.sample(chosen, cap)
+    elif rest:
+        chosen += rnd.sample(rest, min(cap - len(chosen), len(rest)))
+    return chosen
+
+
 WITNESSES = {
     # F3: build v1; edit v2; build killed after rustc wrote the library of c1 and before its digest; edit v1; build
     "component": [[{"op": "edit", "v": "v1"}, {"op": "build"}, {"op": "edit", "v": "v2"}, {"op": "build", "rustc_kill": "c1"},
@@ -109,9 +143,10 @@ def run(tier, replay):
         hs = [to_steps(h) for h in gen["prints"].get("REPLAY", [])]
         # histories start with the source already present: prepend the initial version of the behaviour
         hs = [h for h in hs if any(s["op"] == "build" for s in h)]
-        cap = 4000 if thorough else 350
-        if len(hs) > cap:
-            hs = rnd.sample(hs, cap)
+        # the property speaks about builds that report success: a history ending in an edit, a killed
+        # or a failed build is completed by the build the user runs next
+        hs = [h if h[-1] == {"op": "build"} else h + [{"op": "build"}] for h in hs]
+        hs = select_histories(hs, 12000 if thorough else 1500, rnd)
         hs = WITNESSES[mode] + hs
         res = execute(mode, hs, "c12-" + mode, v)
         states += res["_states"]
